@@ -166,6 +166,85 @@ def agree(model_state, obs, sc):
     return diffs
 
 
+class EventQueries:
+    def __init__(self, sc, mode):
+        S = sc.S
+        self.safety = {
+            "A1 an assert failed or an exception escaped inside Event/Condition code": z3.Or(S["fail"] != 0, S["overflow"]),
+            "A7 Event.wait()/is_set() returned a value different from the flag at its return": S["g.badret"],
+        }
+        self.stuck = {}
+        clear = any(t.name.startswith("C") for t in sc.sys.threads)
+        if not clear:
+            self.stuck["A7 set() without clear(): a waiter (or set itself) is still blocked"] = z3.Not(sc.all_ended())
+        else:
+            self.stuck["A7 set()/clear()/is_set() blocked for ever"] = \
+                z3.Not(z3.And(sc.ended("S"), sc.ended("C"), sc.ended("P")))
+            # a waiter with a timeout can never stay blocked either
+            for t in sc.sys.threads:
+                if t.name.startswith("W"):
+                    self.stuck[f"A7 {t.name} has a timeout but is blocked for ever"] = \
+                        z3.And(S[f"in.timeout.{t.tid}"], S[t.pcvar] != z3.BitVecVal(END, 8)) \
+                        if f"in.timeout.{t.tid}" in S.pre else z3.BoolVal(False)
+        self.witness = z3.And(sc.all_ended(), z3.Or(*[S[f"g.ret.{t}"] == 1 for t in sc.waiter_tids]))
+
+
+def observe_event(sc, cfg, inputs, trace):
+    import loky.backend.synchronize as sy
+    from .replay_cond import TwinSemLock
+    sched = Sched(trace)
+    threads = sc.sys.threads
+    procs = {t.name: t.proc for t in threads}
+    tids = {t.name: t.tid for t in threads}
+    names = {"lock": "lock", "sleeping": "sleeping", "woken": "woken", "waitsem": "waitsem"}
+    cond = build_real_condition(sched, names, "Lock", procs, tids)
+    ev = sy.Event.__new__(sy.Event)
+    ev._cond = cond
+    flag = sy.Semaphore.__new__(sy.Semaphore)
+    flag._semlock = TwinSemLock(sched, "flag.sl", 1, 0, 15, procs, tids)
+    flag._make_methods()
+    ev._flag = flag
+    g = {"ret": {}, "badret": False, "setdone": False}
+    me = sched.tname
+
+    class Obs:
+        def event_wait_returned(self, r):
+            g["ret"][me()] = 1 if r else 2
+            g["badret"] = g["badret"] or (bool(r) != (flag._semlock.v == 1))
+        is_set_returned = event_wait_returned
+
+        def set_done(self):
+            g["setdone"] = True
+    obs = Obs()
+    bodies = {}
+    for t in threads:
+        if t.name.startswith("W"):
+            to = inputs.get(f"in.timeout.{t.tid}")
+            bodies[t.name] = (lambda to=to: drivers_cond.event_waiter(ev, obs, 1.0 if to else None))
+        elif t.name.startswith("S"):
+            bodies[t.name] = lambda: drivers_cond.event_setter(ev, obs)
+        elif t.name.startswith("C"):
+            bodies[t.name] = lambda: drivers_cond.event_clearer(ev, obs)
+        else:
+            bodies[t.name] = lambda: drivers_cond.event_prober(ev, obs)
+    parked, finished = sched.run(bodies)
+    if sched.error is not None:
+        raise sched.error
+    o = {}
+    for nm, obj in (("lock", cond._lock), ("sleeping", cond._sleeping_count), ("woken", cond._woken_count),
+                    ("waitsem", cond._wait_semaphore), ("flag", flag)):
+        o[f"{nm}.sl.v"] = obj._semlock.v
+    for t in threads:
+        o[f"g.ret.{t.tid}"] = g["ret"].get(t.name, 0)
+    o["g.badret"], o["g.setdone"] = g["badret"], g["setdone"]
+    errors = {n: e for n, e in finished.items() if e not in (None, "aborted")}
+    o["failed"] = bool(errors)
+    o["errors"] = {n: f"{type(e).__name__}: {e}" for n, e in errors.items()}
+    o["ended"] = {t.name: finished.get(t.name, "x") is None for t in threads}
+    o["parked"] = {n: f"{ob}.{m}" for n, (ob, m, en) in parked.items()}
+    return o
+
+
 def cond_unit(prop, name, cfg, K, timeout_s=900):
     """One scenario: witness (must be sat, replayed), completeness of K, safety and stuck queries."""
     import loky.backend.synchronize as sy
@@ -177,9 +256,18 @@ def cond_unit(prop, name, cfg, K, timeout_s=900):
                                   "threads of one process unless same_process=False; timeouts are a transition enabled "
                                   "whenever the wait is blocked (every expiry instant)"])
     try:
-        sc = CondScenario(**cfg)
-        mode = "final_notify_all" if cfg.get("final") == "notify_all" else "single_notify"
-        Q = CondQueries(sc, mode)
+        kind = cfg.get("kind", "cond")
+        cfg = {k: v for k, v in cfg.items() if k != "kind"}
+        if kind == "event":
+            from .mcond import EventScenario
+            sc = EventScenario(**cfg)
+            Q = EventQueries(sc, None)
+            observe_fn = observe_event
+        else:
+            sc = CondScenario(**cfg)
+            mode = "final_notify_all" if cfg.get("final") == "notify_all" else "single_notify"
+            Q = CondQueries(sc, mode)
+            observe_fn = observe
         res.functions = [f"loky.backend.synchronize.{f}@{_h(sy, f)}" for f in sc.functions]
         res.transitions = len(sc.sys.transitions) * K
         res.states = sum(len(t.locs) + 3 for t in sc.sys.threads) * (K + 1)
@@ -193,7 +281,7 @@ def cond_unit(prop, name, cfg, K, timeout_s=900):
             inp = inputs_of(r.model)
             inp.update({k: bool(v) for k, v in (cfg.get("fixed") or {}).items()})
             steps = [e for e in r.trace if not e.get("idle")]
-            obs = observe(sc, cfg, inp, steps)
+            obs = observe_fn(sc, cfg, inp, steps)
             ms = b.state_at(r.model, len(steps))
             return inp, steps, obs, ms
 
@@ -225,7 +313,7 @@ def cond_unit(prop, name, cfg, K, timeout_s=900):
                                   "trace": [f"{e['thread']}:{e['label']}" for e in steps],
                                   "real_state_after_replay": {k2: v for k2, v in obs.items()}}
             res.signature = f"{name}:{which}"
-            res.replay = write_replay(prop, name, {"property": prop, "engine": "E-TS", "model": "M_cond", "cfg": cfg,
+            res.replay = write_replay(prop, name, {"property": prop, "engine": "E-TS", "model": "M_cond", "cfg": dict(cfg, kind=kind),
                                                    "inputs": inp, "trace": steps, "violated": which,
                                                    "observed": obs})
             res.detail = f"VIOLATED {which}; trace of {k} steps reproduced on the real Condition code"
@@ -280,8 +368,14 @@ def _h(mod, qual):
 
 
 def replay_file(rp):
-    cfg = rp["cfg"]
-    sc = CondScenario(**cfg)
-    obs = observe(sc, cfg, rp["inputs"], rp["trace"])
+    cfg = dict(rp["cfg"])
+    kind = cfg.pop("kind", "cond")
+    if kind == "event":
+        from .mcond import EventScenario
+        sc = EventScenario(**cfg)
+        obs = observe_event(sc, cfg, rp["inputs"], rp["trace"])
+    else:
+        sc = CondScenario(**cfg)
+        obs = observe(sc, cfg, rp["inputs"], rp["trace"])
     print("real state after replay:", obs)
     return 0
